@@ -26,15 +26,16 @@ import (
 //     dead and refuses to be resumed; a coroutine that is suspended is suspended in the yield its
 //     body reached, and the values of the next resume arrive as the results of THAT yield (never a
 //     replay of an earlier hand-over), after which the body runs to its end.
+//
 // The position of the limit is found by the sweep, nothing about the registry layout is assumed.
 type hlSpec struct {
-	Kind      string   `json:"kind"`  // yield | tailyield | return | error | args
+	Kind      string   `json:"kind"`  // yield | tailyield | return | error | args | depth
 	Wrap      bool     `json:"wrap"`  // coroutine.wrap instead of create/resume
 	Sweep     string   `json:"sweep"` // payload | crowd
 	Shape     string   `json:"shape"` // how the loaded side holds registers: deep | crowded
 	Load      int      `json:"load"`  // depth / number of held values of the fixed load
 	K0        int      `json:"k0"`    // payload of a crowd sweep
-	Hist      []string `json:"hist"`  // full, levels, deep, cofull
+	Hist      []string `json:"hist"`  // full, levels, deep (the resumer); cofull, codeep (the coroutine under test)
 	Rounds    int      `json:"rounds"`
 	Nested    bool     `json:"nested"` // the resumer is itself a coroutine
 	ErrKind   string   `json:"errkind,omitempty"`
@@ -42,6 +43,7 @@ type hlSpec struct {
 	RegMax    int      `json:"registry_max"`
 	RegGrow   int      `json:"registry_grow"`
 	CallStack int      `json:"callstack"`
+	Minimize  bool     `json:"minimize_stack,omitempty"` // per-thread call stacks that grow and shrink in pooled segments
 }
 
 func (s hlSpec) name() string {
@@ -105,7 +107,10 @@ func (s hlSpec) lua() string {
 	p(`end`)
 	cohist := ""
 	if s.has("cofull") {
-		cohist = "hist_full(); "
+		cohist += "hist_full(); "
+	}
+	if s.has("codeep") {
+		cohist += "hist_deep(); "
 	}
 	// the loaded call made inside the coroutine (args kind) or by the resumer (all others)
 	load := func(f, a, b, v string) string {
@@ -144,6 +149,17 @@ func (s hlSpec) lua() string {
 		p(`local function body(k) th = coroutine.running(); %sstage = 1`, cohist)
 		p(`  %s`, raise)
 		p(`  stage = 9`)
+		p(`end`)
+	case "depth":
+		// the payload is a DEPTH: the body yields k non-tail calls down, is resumed, and returns through all of them
+		p(`local function body(k) th = coroutine.running(); %sstage = 1`, cohist)
+		p(`  local function down(n)`)
+		p(`    if n == 0 then local a = coroutine.yield("first", k); stage = 2; return a end`)
+		p(`    local r = down(n - 1)`)
+		p(`    return r`)
+		p(`  end`)
+		p(`  local r = down(k); stage = 3`)
+		p(`  return "done", r`)
 		p(`end`)
 	case "args":
 		p(`local function inner(k) stage = 1`)
@@ -232,6 +248,8 @@ func (s hlSpec) lua() string {
 		p(`      for i = 1, k do if r[off + 1 + i] ~= i then fail(v, "value " .. i .. " arrived as " .. tostring(r[off + 1 + i])) end end`)
 		p(`      if stage ~= 1 then fail(v, "stage " .. stage) end`)
 		p(`    end`)
+	case "depth":
+		p(`    if class == "arrived" and not (#r == off + 2 and r[off + 1] == "first" and r[off + 2] == k and stage == 1) then fail(v, "yield at depth " .. k .. " handed over " .. show(r)) end`)
 	case "args":
 		p(`    if class == "arrived" then`)
 		p(`      local first, last = nil, nil; if k > 0 then first, last = 1, k end`)
@@ -265,6 +283,15 @@ func (s hlSpec) lua() string {
 		p(`      refused()`)
 		p(`    elseif st == "suspended" and stage ~= 0 then fail(v, "suspended at stage " .. stage)`)
 		p(`    elseif st == "dead" then refused() end`)
+	case "depth":
+		p(`    if class == "arrived" and st ~= "suspended" then fail(v, "values arrived but the coroutine is " .. st) end`)
+		p(`    if class ~= "arrived" and stage >= 1 and st ~= "dead" then fail(v, class .. ": the descent failed but the coroutine is " .. st) end`)
+		p(`    if st == "suspended" and stage == 1 then`)
+		p(`      local f = {again("A")}`)
+		p(`      if not (#f == 3 and f[1] == true and f[2] == "done" and f[3] == "A" and stage == 3) then fail(v, "resumed at depth " .. k .. ": " .. show(f)) end`)
+		p(`      if coroutine.status(th) ~= "dead" then fail(v, "finished body, status " .. coroutine.status(th)) end`)
+		p(`    end`)
+		p(`    if st == "dead" or stage == 3 then refused() end`)
 	case "return":
 		p(`    if stage >= 1 and st ~= "dead" then fail(v, class .. ": the body has returned but the coroutine is " .. st) end`)
 		p(`    if st == "dead" then refused() end`)
@@ -290,7 +317,7 @@ func (s hlSpec) lua() string {
 	p(`end`)
 	p(`local function resumer()`)
 	for _, h := range s.Hist {
-		if h != "cofull" {
+		if h != "cofull" && h != "codeep" {
 			p(`  hist_%s()`, h)
 		}
 	}
@@ -311,7 +338,7 @@ func (s hlSpec) lua() string {
 }
 
 func (s hlSpec) run() (bool, string, *luagen.Outcome) {
-	o := lua.Options{RegistrySize: s.Reg, RegistryMaxSize: s.RegMax, RegistryGrowStep: s.RegGrow, CallStackSize: s.CallStack}
+	o := lua.Options{RegistrySize: s.Reg, RegistryMaxSize: s.RegMax, RegistryGrowStep: s.RegGrow, CallStackSize: s.CallStack, MinimizeStackMemory: s.Minimize}
 	out := luagen.Run(s.lua(), &luagen.RunOptions{Options: &o, Timeout: 60e9})
 	rows := traceRows(out)
 	if out.GoFail != "" {
@@ -349,6 +376,12 @@ func hlSpecs(tier string, seed uint64) []hlSpec {
 		if s.Kind == "args" {
 			s.Sweep = "payload"
 		}
+		if s.Kind == "depth" {
+			// the call stack is the limit that is reached first
+			s.Sweep, s.Shape = "payload", "deep"
+			s.Reg, s.RegMax, s.RegGrow = r.Range(600, 700), 0, 0
+			s.CallStack = []int{33, 64, 96}[r.Intn(3)]
+		}
 		if s.Sweep == "crowd" {
 			s.Shape = "crowded"
 			s.K0 = r.Range(0, 9)
@@ -379,18 +412,32 @@ func hlSpecs(tier string, seed uint64) []hlSpec {
 			}
 		}
 	}
+	for _, wrap := range []bool{false, true} {
+		for _, h := range [][]string{{}, {"codeep"}, {"deep", "codeep"}, {"full"}} {
+			for _, mini := range []bool{false, true} {
+				specs = append(specs, finish(hlSpec{Kind: "depth", Wrap: wrap, Hist: h, Minimize: mini, Rounds: 1 + b2i(mini)}))
+			}
+		}
+	}
 	// random: nested resumers, growing registries (the limit is the maximal size then), two rounds
 	n := 30
 	if tier == "thorough" {
 		n = 400
 	}
 	for i := 0; i < n; i++ {
-		s := hlSpec{Kind: []string{"yield", "yield", "tailyield", "return", "error", "args"}[r.Intn(6)], Wrap: r.Chance(40), Nested: r.Chance(50), Rounds: 1 + r.Intn(2)}
+		s := hlSpec{Kind: []string{"yield", "yield", "tailyield", "return", "error", "args", "depth"}[r.Intn(7)], Wrap: r.Chance(40), Nested: r.Chance(50), Rounds: 1 + r.Intn(2)}
 		s.Hist = append([]string{}, hists[r.Intn(len(hists))]...)
 		if r.Chance(30) {
 			s.Hist = append(s.Hist, "levels")
 		}
+		if r.Chance(25) {
+			s.Hist = append(s.Hist, "codeep")
+		}
+		if r.Chance(40) {
+			s.CallStack = []int{40, 64}[r.Intn(2)]
+		}
 		s.Sweep = []string{"payload", "crowd"}[r.Intn(2)]
+		s.Minimize = r.Chance(30)
 		s.Shape = []string{"deep", "crowded"}[r.Intn(2)]
 		if r.Chance(50) {
 			s.Reg = r.Range(128, 160)
@@ -402,14 +449,88 @@ func hlSpecs(tier string, seed uint64) []hlSpec {
 	return specs
 }
 
-func histLimits(w *lib.Writer, tier string, seed uint64) {
-	for _, s := range hlSpecs(tier, seed) {
-		ok, what, out := s.run()
-		id := w.Add(lib.Case{Input: map[string]any{"w5": "hist-limit", "spec": s, "src": s.lua()}, Observed: out.Summary(), Class: "histlimit-" + s.name(),
+// historyProgs: bookkeeping that is counted up on the way into a resume or a protected call and
+// down on the way out (nesting depth of resumes, depth of Go calls that forbid a yield) must come
+// back to where it was on EVERY way out: after several hundred coroutines that ended by an error
+// through wrap, by a runtime fault, by a refused yield, by a refused resume, or whose resumer had no
+// room, the depth at which nested resumes are refused is the one of a fresh state, a yield that is
+// legal is still legal, and a coroutine that lived through all of it still gets its values.
+var historyProgs = []struct {
+	name string
+	src  string
+	want []string
+}{
+	{"resume-depth-after-history", `local function maxdepth()
+  local depth = 0
+  local function f() depth = depth + 1; return coroutine.wrap(f)() end
+  local ok, e = pcall(f)
+  return depth, (tostring(e):gsub("^.*: ", ""))
+end
+local d0, e0 = maxdepth()
+local survivor = coroutine.wrap(function(a) while true do a = coroutine.yield(a * 2) end end)
+local big = {}; for i = 1, 7000 do big[i] = i end
+local acc = 0
+for i = 1, 300 do
+  pcall(coroutine.wrap(function() error("x") end))
+  pcall(coroutine.wrap(function() error({}) end))
+  coroutine.resume(coroutine.create(function() local z = nil; return z.f end))
+  local co = coroutine.create(function() pcall(coroutine.yield, 1); local t = setmetatable({}, {__index = function() return coroutine.yield(2) end}); return t.x end); coroutine.resume(co)
+  local w = coroutine.wrap(function() coroutine.yield(1) end); w(); w(); pcall(w)
+  local me = coroutine.wrap(function() local self = coroutine.running(); return coroutine.resume(self) end); me()
+  if i % 60 == 0 then pcall(coroutine.resume, coroutine.create(function() return unpack(big) end)); pcall(coroutine.wrap(function() coroutine.yield(unpack(big)) end)) end
+  acc = acc + survivor(i)
+end
+local d1, e1 = maxdepth()
+emit(d0 == d1, e0 == e1, e1, acc)
+local inner = coroutine.wrap(function() local d2 = maxdepth(); coroutine.yield(d2); for i = 1, 300 do pcall(error, "x"); pcall(coroutine.wrap(function() error("y") end)) end; coroutine.yield(maxdepth()); return "end" end)
+local d2 = inner(); local d3 = inner(); emit(d2 == d0 - 1, d3 == d2, inner(), survivor(1))`,
+		[]string{`true true "C stack overflow" 90300`, `true true "end" 2`}},
+}
+
+func historyCases(w *lib.Writer, only string) {
+	for _, p := range historyProgs {
+		if only != "" && p.name != only {
+			continue
+		}
+		out := luagen.RunIsolated(p.src, 60e9, nil)
+		rows := traceRows(out)
+		ok := out.Ok && out.GoFail == "" && len(rows) == len(p.want)
+		if ok {
+			for i := range rows {
+				if rows[i] != p.want[i] {
+					ok = false
+				}
+			}
+		}
+		id := w.Add(lib.Case{Input: map[string]any{"w5": "history", "name": p.name, "src": p.src}, Observed: out.Summary(), Class: "history-" + p.name,
 			Nontrivial: true, Coq: "CProg [] (Outcome [] (OOk []))"})
 		w.Meta.GoOnlyChecked++
 		if !ok {
-			w.GoFail(id, fmt.Sprintf("coroutine hand-over at the register limit after a history (%s, history %v, nested=%v, registry %d/%d): %s", s.name(), s.Hist, s.Nested, s.Reg, s.RegMax, what))
+			w.GoFail(id, fmt.Sprintf("coroutine bookkeeping after a history of failed coroutines %q: expected rows %q, got %q (ok=%v err=%s %s)", p.name, p.want, rows, out.Ok, out.Err.String(), out.GoFail))
 		}
 	}
+}
+
+func histLimits(w *lib.Writer, tier string, seed uint64) {
+	historyCases(w, "")
+	for _, s := range hlSpecs(tier, seed) {
+		histLimitCase(w, s)
+	}
+}
+
+func histLimitCase(w *lib.Writer, s hlSpec) {
+	ok, what, out := s.run()
+	id := w.Add(lib.Case{Input: map[string]any{"w5": "hist-limit", "spec": s, "src": s.lua()}, Observed: out.Summary(), Class: "histlimit-" + s.name(),
+		Nontrivial: true, Coq: "CProg [] (Outcome [] (OOk []))"})
+	w.Meta.GoOnlyChecked++
+	if !ok {
+		w.GoFail(id, fmt.Sprintf("coroutine hand-over at the register limit after a history (%s, history %v, nested=%v, registry %d/%d): %s", s.name(), s.Hist, s.Nested, s.Reg, s.RegMax, what))
+	}
+}
+
+func b2i(b bool) int {
+	if b {
+		return 1
+	}
+	return 0
 }
